@@ -39,8 +39,8 @@ int KillMemoryGrowth<Base>::init(
       "growing_size_percentile",
       growing_size_percentile_,
       [&](const std::string& s) {
-        int v = std::stoi(s);
-        if (v < 0 || v >= 100) {
+        int v = PluginArgParser::parseUnsignedInt(s);
+        if (v >= 100) {
           throw std::invalid_argument(
               "growing_size_percentile must be in range [0, 100)");
         }
@@ -49,8 +49,9 @@ int KillMemoryGrowth<Base>::init(
 
   this->argParser_.addArgumentCustom(
       "min_growth_ratio", min_growth_ratio_, [](const std::string& s) {
-        float v = std::stof(s);
-        if (!(v >= 0)) {
+        size_t pos = 0;
+        float v = std::stof(s, &pos);
+        if (pos != s.size() || !(v >= 0) || !std::isfinite(v)) {
           throw std::invalid_argument("min_growth_ratio must be non-negative");
         }
         return v;
